@@ -368,7 +368,8 @@ def plume_sections(P, rep, rule="PLUME.sections"):
                    "interpolate_angle_across_zero(rotation_angles[index-1], rotation_angles[index], fraction)")
     F = P.func("WorldBuilder::Features::Plume::properties")
     depth_k = F.params[2]
-    R = lambda x: norm.render(P, x, nocast=True).replace(" ", "")
+    _roles = norm.Subst(bind={depth_k: "depth"})      # the depth argument by position
+    R = lambda x: norm.render(P, x, nocast=True, subst=_roles).replace(" ", "")
     tables = {"coordinates": "C", "semi_major_axis_lengths": "A", "eccentricities": "E", "rotation_angles": "R", "depths": "D"}
     d = sp.Symbol("depth")
 
@@ -644,6 +645,97 @@ def alias_sites(P, rep, rule="ALIAS.sites"):
                           witness="feature straddling the 180 meridian")
 
 
+def alias_shift_shape(P, rep, rule="ALIAS.shift"):
+    """how the alias longitude is computed, decided on the two half-ranges of the longitude"""
+    rep.rule(rule, "at every alias-aware site that builds a shifted copy of a spherical point, the longitude of the copy is L + 2*pi for "
+                   "-2*pi < L < 0 and L - 2*pi for 0 < L < 2*pi, L the longitude of the original point: the statement that writes component 0 "
+                   "of the copy is evaluated on both half-ranges (conditions are inequalities in L with no zero inside a half-range; fmod is "
+                   "x - j*m with constant j on a range without a multiple of m)")
+    n = 0
+    L = sp.Symbol("L", real=True)
+    pih = pi_hook(P)
+    for qn, how in ALIAS_AWARE.items():
+        if how.startswith("+-"):
+            continue      # the slab-frame kernel tries both shifts and keeps the closer representation: a different construction
+        fs = P.funcs_named(qn)
+        if not fs:
+            raise AnalysisBroken("alias-aware site %s vanished" % qn)
+        F = fs[0]
+        cands = []
+        for y in F.walk(F.body):
+            if y.get("k") in ("BinaryOperator", "CompoundAssignOperator") and y.get("op") in ("=", "+=", "-="):
+                sub = astq.subscript(y["c"][0])
+                if not sub:
+                    continue
+                b, i = sc(sub[0]), sc(sub[1])
+                if b.get("k") == "DeclRefExpr" and P.d(b["r"]).get("storage") == "local" and b["r"] not in F.params and "Point<" in (P.d(b["r"]).get("t") or "") \
+                        and i.get("k") == "IntegerLiteral" and int(i["v"]) == 0 and "PI" in norm.render(P, y["c"][1]):
+                    cands.append((y, b["r"]))
+        for (y, var) in cands:
+            n += 1
+            verdicts = []
+            for (lo, hi, want) in ((-TWO_PI, sp.Integer(0), TWO_PI), (sp.Integer(0), TWO_PI, -TWO_PI)):
+                mid = (lo + hi) / 2
+                holder = {}
+
+                def lin(t):
+                    t = sp.expand(t)
+                    return t if not (t.free_symbols - {L}) else None
+
+                def hook(nd, lo=lo, hi=hi, mid=mid, holder=holder):
+                    h = pih(nd)
+                    if h is not None:
+                        return h
+                    s_ = astq.subscript(nd)
+                    if s_ and sc(s_[1]).get("k") == "IntegerLiteral" and int(sc(s_[1])["v"]) == 0 and "Point<" in (sc(s_[0]).get("t") or ""):
+                        return L          # the longitude of the point and of its (not yet shifted) copy
+                    if nd.get("k") == "CallExpr" and nd.get("callee") and P.d(nd["callee"]).get("qn") in ("std::fmod", "fmod") and len(nd["c"]) == 3:
+                        S = holder["S"]
+                        x, m = S(nd["c"][1]), S(nd["c"][2])
+                        xd = lin(x)
+                        if xd is None or m.free_symbols or not m.is_positive:
+                            return None
+                        for j in range(-3, 4):
+                            r = _roots_inside(xd - j * m, L, lo, hi)
+                            if r is None or r == "interval" or r:
+                                return None
+                        q = xd.subs(L, mid) / m
+                        j = sp.floor(q) if q >= 0 else sp.ceiling(q)
+                        return x - j * m
+                    if nd.get("k") == "ConditionalOperator":
+                        S = holder["S"]
+                        c = sc(nd["c"][0])
+                        if c.get("k") == "BinaryOperator" and c.get("op") in ("<", "<=", ">", ">="):
+                            e = lin(S(c["c"][0]) - S(c["c"][1]))
+                            if e is not None and _roots_inside(e, L, lo, hi) == []:
+                                v = float(e.subs(L, mid))
+                                t = {"<": v < 0, "<=": v <= 0, ">": v > 0, ">=": v >= 0}[c["op"]]
+                                return S(nd["c"][1] if t else nd["c"][2])
+                        return None
+                    return None
+                S = norm.Sym(P, F, inline_locals=False, hook=hook)
+                holder["S"] = S
+                rhs = S(y["c"][1])
+                new = rhs if y["op"] == "=" else (L + rhs if y["op"] == "+=" else L - rhs)
+                d_ = lin(new - L)
+                if d_ is None or any(getattr(e_.func, "__name__", "") in ("ite", "fmod", "std::fmod") for e_ in new.atoms(sp.Function)):
+                    verdicts.append(("unknown", lo, hi, new))
+                elif sp.simplify(d_ - want) == 0:
+                    verdicts.append(("ok", lo, hi, new))
+                else:
+                    verdicts.append(("bad", lo, hi, new))
+            if any(v[0] == "bad" for v in verdicts):
+                v = [v for v in verdicts if v[0] == "bad"][0]
+                rep.violation(rule, "%s: for %s < L < %s the alias longitude is %s" % (qn.split("::")[-1], v[1], v[2], v[3]), F.nloc(y), F.qn, norm.render(P, y)[:140],
+                              "expected L %s 2*pi: the copy is not the same point on the other sheet" % ("+" if v[1] != 0 else "-"), key="%s|%s" % (rule, qn),
+                              witness="a feature written with longitudes beyond +-180 degrees and a query on the other side of the date line")
+            elif any(v[0] == "unknown" for v in verdicts):
+                rep.unknown(rule, "%s: the alias longitude `%s` is not an expression this rule can evaluate" % (qn.split("::")[-1], norm.render(P, y)[:80]))
+            else:
+                rep.ok(rule, "%s: alias longitude is L + 2*pi for L < 0 and L - 2*pi for L > 0" % qn.split("::")[-1], F.nloc(y), F.qn)
+    rep.floor(rule, n, 3, "alias longitude constructions")
+
+
 def bezier_periodic_start(P, rep, rule="ALIAS.bezier-start"):
     """the start value of the spherical closest-point iteration does not depend on the 2*pi sheet of the query"""
     rep.rule(rule, "BezierCurve::closest_point_on_curve_segment, spherical branch: the difference check_point - p1 that feeds the linear start "
@@ -704,7 +796,8 @@ def plume_head(P, rep, rule="EXPR.plumehead"):
                    "b = a sqrt(1 - e^2), c = first depth - min depth, (x', y') the horizontal offset rotated by -theta and z = first depth - depth, "
                    "the relative distance is x'^2/a^2 + y'^2/b^2 + z^2/c^2, evaluated under min_depth <= depth < first depth")
     F = P.func("WorldBuilder::Features::Plume::properties")
-    R = lambda x: norm.render(P, x, nocast=True).replace(" ", "")
+    _roles = norm.Subst(bind={F.params[2]: "depth"}) if len(F.params) > 2 else None      # the depth argument by position
+    R = lambda x: norm.render(P, x, nocast=True, subst=_roles).replace(" ", "")
     heads = [x for x in F.walk() if x.get("k") == "IfStmt" and R(x["c"][0]) in ("((depth>=min_depth)&&(depth<depths.front()))", "((min_depth<=depth)&&(depth<depths.front()))")]
     if len(heads) != 1:
         rep.violation(rule, "plume head condition `min_depth <= depth < depths.front()` not found", F.loc, F.qn, "", "the plume is not closed above its first cross section as documented",
